@@ -242,6 +242,56 @@ def run_case(c, ns):
             mutate_in_place(p1, True, grow=False)      # only fields of nested packets change: the lists keep their length
             changed = json.dumps(canon(p1), sort_keys=True) != before
             return {"ok": {"changed": changed, "eq": bool(p1 == p2), "ne": bool(p1 != p2), "eq_rev": bool(p2 == p1)}}
+        if op == "default_pair_each":
+            # two default-constructed packets; ONE value below the top level of one of them changed in place (an integer of a nested
+            # packet, an element of a nested list, a list grown): they must then be unequal -- for every such place, one at a time
+            def places(p, depth, path):
+                from bisturi.packet import Packet
+                out = []
+                for name, _, _, _ in p.get_fields():
+                    try:
+                        v = getattr(p, name)
+                    except AttributeError:
+                        continue
+                    here = path + [name]
+                    if isinstance(v, Packet):
+                        out += places(v, depth + 1, here)
+                    elif isinstance(v, list):
+                        if depth >= 1:
+                            out.append((here, 'append'))
+                        for i, x in enumerate(v):
+                            if isinstance(x, Packet):
+                                out += places(x, depth + 1, here + [i])
+                            elif depth >= 1 and isinstance(x, int) and not isinstance(x, bool):
+                                out.append((here + [i], 'item'))
+                    elif depth >= 1 and isinstance(v, int) and not isinstance(v, bool):
+                        out.append((here, 'int'))
+                return out
+
+            def walk(p, path):
+                for st in path:
+                    p = p[st] if isinstance(st, int) else getattr(p, st)
+                return p
+            bad, n = [], 0
+            for path, kind in places(build(c["value"], ns), 0, [])[:40]:
+                p1, p2 = build(c["value"], ns), build(c["value"], ns)
+                try:
+                    if kind == 'append':
+                        walk(p1, path).append(walk(p1, path)[0] if walk(p1, path) else 7)
+                    elif kind == 'item':
+                        walk(p1, path[:-1])[path[-1]] ^= 1
+                    else:
+                        setattr(walk(p1, path[:-1]), path[-1], walk(p1, path) ^ 1)
+                except Exception:
+                    continue
+                n += 1
+                try:
+                    eq, ne, rev = bool(p1 == p2), bool(p1 != p2), bool(p2 == p1)
+                except Exception as e:
+                    bad.append([path, kind, "EXC:" + type(e).__name__]); continue
+                if eq or not ne or rev:
+                    bad.append([path, kind, dict(eq=eq, ne=ne, eq_rev=rev)])
+            return {"ok": {"places": n, "bad": bad[:3]}}
         if op == "default_after":
             # a default-constructed packet, mutated in place as deep as it goes; then ANOTHER default-constructed packet
             first = build(c["value"], ns)
@@ -275,6 +325,8 @@ def run_case(c, ns):
                     variants.append((pre + raw[:k], off, "prefix-of-cut2"))
             if c.get("offsets"):
                 variants.append((raw + bytes(rnd.choice([0, 10, 58, 65, 255]) for _ in range(rnd.randrange(1, 4))), 0, "suffix"))
+                # a long suffix too: "enough bytes left for a whole machine word" is where bulk-decoding shortcuts switch on
+                variants.append((raw + bytes(rnd.choice([0, 10, 58, 65, 255, 0x80]) for _ in range(rnd.randrange(8, 17))), 0, "suffix"))
             out = []
             for r, off, kind in variants:
                 oc = run_case({"cls": c["cls"], "op": "roundtrip", "raw": r.hex(), "offset": off, "record": c.get("record")}, ns)
